@@ -46,7 +46,7 @@ def r1(ctx, rep):
     it = Interp(dict(zip_longest=itertools.zip_longest, starmap=lambda f, x: tuple(itertools.starmap(f, x)), opr=_opr,
                      check=Obj('check', inst=lambda *a: None)), where='lang/lex.py Lexical.orderitems')
     it.g['filter'] = lambda f, x: tuple(filter(f, x))
-    tuples = [t for n in range(0, 4) for t in itertools.product((0, 1, 2), repeat=n)]
+    tuples = [t for n in range(0, 5 if rep.tier == 'thorough' else 4) for t in itertools.product((0, 1, 2), repeat=n)]
     sign = lambda x: (x > 0) - (x < 0)
     bad = 0
     for a, b in itertools.product(tuples, repeat=2):
@@ -242,7 +242,7 @@ def r4(ctx, rep):
     keys = {v: [('k1', v), ('k2', v)] for v in values}
     n = 0
     probs = collections.OrderedDict()
-    for maxlen in (0, 1, 2):
+    for maxlen in ((0, 1, 2, 3) if rep.tier == 'thorough' else (0, 1, 2)):
         def fresh():
             return Obj('cache', queue=collections.deque(maxlen=maxlen), idx={}, rev={})
 
@@ -254,7 +254,7 @@ def r4(ctx, rep):
             return d
         frontier = [fresh()]
         seen = {snapshot(frontier[0])}
-        for depth in range(4):
+        for depth in range(5 if rep.tier == 'thorough' else 4):
             nxt = []
             for c in frontier:
                 for v in values:
